@@ -10,7 +10,7 @@
    every order [ord] in which the leaves draw their number from the atomic
    counter (any injection of the leaves into [0, part_count)). *)
 From Coq Require Import Permutation QArith.
-From Coupe Require Import Lib.Prelude Lib.SFloat Model.MultiJagged Proofs.MultiJaggedProofs Gen.MjGen.
+From Coupe Require Import Lib.Prelude Lib.SFloat Model.MultiJagged Proofs.MultiJaggedProofs Proofs.MultiJaggedExact Gen.MjGen.
 Open Scope N_scope.
 
 (* the literals of multi_jagged.rs the model is written against, re-read from the source on every run *)
@@ -70,3 +70,94 @@ Theorem C11_check_jagged_sound : forall B D cxlt idf (sch : scheme B) n lvs,
   exists els, Permutation els (seq 0 n) /\ JaggedTree B D cxlt idf sch 0 els.
 Proof. exact check_jagged_sound. Qed.
 Print Assumptions C11_check_jagged_sound.
+
+(* ---- exact threshold arithmetic ([QA]: what the code computes when no f64 operation rounds) ---- *)
+
+(* rayon's block decomposition of the scan is irrelevant: for non-negative
+   weights and increasing non-negative thresholds the split positions are the
+   same for every decomposition (each is the first position whose prefix weight
+   exceeds its threshold) *)
+Theorem C11_blocks_irrelevant : forall wl ths bs1 bs2,
+  Forall (Qle 0) wl -> Sorted.StronglySorted Qle ths -> Forall (Qle 0) ths ->
+  csp_core QA wl ths bs1 = csp_core QA wl ths bs2.
+Proof. exact csp_core_blocks_irrelevant. Qed.
+Print Assumptions C11_blocks_irrelevant.
+
+Theorem C11_split_positions_are_cuts : forall wl, Forall (Qle 0) wl -> forall ths bs,
+  Sorted.StronglySorted Qle ths -> Forall (Qle 0) ths ->
+  exists ps, csp_core QA wl ths bs = Ok ps /\ Forall2 (is_cut wl) ths ps.
+Proof. exact csp_core_spec. Qed.
+Print Assumptions C11_split_positions_are_cuts.
+
+(* no panic, no missing element at exact arithmetic, for non-negative weights *)
+Theorem C11_exact_total : forall D npts (wq : list Q) sorter blk cxlt root ord (k : N) (m : nat) p0,
+  root_ok root -> sorter_ok sorter cxlt ->
+  1 <= k -> k < 2 ^ 60 -> (1 <= m)%nat -> (1 <= D)%nat ->
+  Forall (Qle 0) wq -> length wq = npts -> length p0 = npts ->
+  exists p, multi_jagged QA D npts wq sorter blk root ord k m p0 = Ok p.
+Proof. exact mj_exact_total. Qed.
+Print Assumptions C11_exact_total.
+
+(* mj_balance.  PARTIAL with respect to the property text: proved for the model
+   at exact arithmetic [QA] (integer weights injected into Q, thresholds
+   total * parts_i / parts computed exactly, the Ulps comparison read as
+   equality).  What is missing: the same bound for the model at [F64], i.e.
+   that the rounding of the f64 thresholds and the 4-ulps / epsilon tolerance
+   never move a cut (true on every generated case: the run evaluates both
+   models and the checker C11_check_balance_ok judges the implementation's
+   real output).  The hypothesis is weaker than "strictly positive": weights
+   >= 0, not all zero. *)
+Theorem C11_balance_partial :
+  forall D npts (ws : list Z) sorter blk cxlt root ord (k : N) (m : nat) p0 p,
+  root_ok root -> sorter_ok sorter cxlt -> ord_bij ord (N.to_nat k) ->
+  1 <= k -> k < 2 ^ 60 -> (1 <= m)%nat ->
+  Forall (fun w => (0 <= w)%Z) ws -> (0 < maxZ ws)%Z -> length ws = npts -> length p0 = npts ->
+  multi_jagged QA D npts (map inject_Z ws) sorter blk root ord k m p0 = Ok p ->
+  balanced ws p k m.
+Proof. exact mj_balance. Qed.
+Print Assumptions C11_balance_partial.
+
+(* the bound actually proved is sharper: max_iter (not max_iter + 1) element weights *)
+Theorem C11_balance_exact_sharp :
+  forall D npts (ws : list Z) sorter blk cxlt root ord (k : N) (m : nat) p0 p,
+  root_ok root -> sorter_ok sorter cxlt -> ord_bij ord (N.to_nat k) ->
+  1 <= k -> k < 2 ^ 60 -> (1 <= m)%nat ->
+  Forall (fun w => (0 <= w)%Z) ws -> (0 < maxZ ws)%Z -> length ws = npts -> length p0 = npts ->
+  multi_jagged QA D npts (map inject_Z ws) sorter blk root ord k m p0 = Ok p ->
+  forall b, b < k ->
+    (Z.abs (Z.of_N k * loadZ ws p b - sumZ ws) <= Z.of_N k * Z.of_nat m * maxZ ws)%Z.
+Proof. exact mj_balance_exact. Qed.
+Print Assumptions C11_balance_exact_sharp.
+
+(* ---- non-vacuity: the oracle contracts are satisfiable, and a concrete run ---- *)
+
+(* a sort oracle: stable insertion sort on any integer key *)
+Theorem C11_sort_oracle_exists : forall key : nat -> nat -> Z,
+  sorter_ok (fun a => isort (key_lt key a)) (key_lt key).
+Proof. exact isort_sorter_ok. Qed.
+
+(* a root oracle satisfying root_ok (square-root-free: 2 slabs per level, all parts at the last level) *)
+Definition root2 (n : N) (m : nat) : N := if Nat.eqb m 1 then n else if n =? 1 then 1 else 2.
+Example C11_root_oracle_exists : root_ok root2.
+Proof.
+  intros n m. unfold root2. repeat split.
+  - intros ->. destruct (Nat.eqb m 1); reflexivity.
+  - destruct (Nat.eqb m 1); [lia|]. destruct (N.eqb_spec n 1); lia.
+  - destruct (Nat.eqb m 1); [lia|]. destruct (N.eqb_spec n 1); lia.
+Qed.
+Example C11_leaf_order_exists : forall L, ord_bij N.of_nat L.
+Proof. intros L. split; [apply ord_ok_of_nat|]. intros b Hb. exists (N.to_nat b). split; lia. Qed.
+
+(* 2-D, six points, weights 3 1 4 1 5 2, three parts in two iterations: the
+   exact and the binary64 model agree and every hypothesis of the theorems holds *)
+Definition ex_key (a x : nat) : Z := nth x (nth a [[5; 1; 4; 2; 3; 0]; [0; 2; 1; 2; 3; 1]]%Z []) 0%Z.
+Definition ex_ws : list Z := [3; 1; 4; 1; 5; 2]%Z.
+Example C11_nonvacuous_exact :
+  multi_jagged QA 2 6 (map inject_Z ex_ws) (fun a => isort (key_lt ex_key a)) (fun l => repeat 2%nat (length l))
+               root2 N.of_nat 3 2 (repeat 99 6) = Ok [2; 0; 2; 0; 1; 0]
+  /\ balanced ex_ws [2; 0; 2; 0; 1; 0] 3 2.
+Proof. split; [vm_compute; reflexivity|]. apply C11_check_balance_ok. vm_compute. reflexivity. Qed.
+Example C11_nonvacuous_f64 :
+  multi_jagged F64 2 6 (map (fun z => f64_of_Z z) ex_ws) (fun a => isort (key_lt ex_key a)) (fun l => repeat 2%nat (length l))
+               root2 N.of_nat 3 2 (repeat 99 6) = Ok [2; 0; 2; 0; 1; 0].
+Proof. vm_compute. reflexivity. Qed.
